@@ -82,9 +82,10 @@ def run(chk):
             if k == 9:
                 inlen, outlen = r.choice([(-1, 10), (3, -1)])
             pres = r.choice([0, 12, 2, 1, 13])
-            lines.append(trans.case_line(fn, mode, inp, outlen, inlen=inlen, presence=pres,
-                                         typeform=safety.gen_typeform(r, len(inp)) if pres & 1 and fn != "B" else None))
-            meta.append((fn, mode, inp, inlen, outlen, generous))
+            tfm = safety.gen_typeform(r, len(inp)) if pres & 1 and fn != "B" else None
+            lines.append(trans.case_line(fn, mode, inp, outlen, inlen=inlen, presence=pres, typeform=tfm))
+            # the completeness clause is stated for inputs with no character marked no_translate (0x800)
+            meta.append((fn, mode, inp, inlen, outlen, generous if not (tfm and any(t & 0x800 for t in tfm)) else -1))
         # poison and probe: a long homogeneous input, then shorter inputs that end inside a run of the same character. Whatever
         # reads behind the end of a pass input (the caller's array is exactly sized; the internal pass buffers keep what the
         # earlier call left there) sees characters that continue the run
@@ -98,7 +99,22 @@ def run(chk):
         # longer call left behind the end of a pass input is still there)
         exact = 1 if (len(tl) + chk.seed) % 2 else 0
         chk.tally("tables_exact_scratch_%d" % exact)
-        rs = trans.run_cases(exe, tl, lines, exact=exact, env=env, timeout=400)
+        if exact:
+            rs = trans.run_cases(exe, tl, lines, exact=exact, env=env, timeout=400)
+        else:
+            # with the library's own scratch sizing lou_free() is called at a few places of the stream: what it forgets to
+            # reset must not make a later valid call fail
+            fpos = set(r.range(1, len(lines) - 1) for _ in range(4))
+            stream, isf = [], []
+            for i, ln in enumerate(lines):
+                if i in fpos:
+                    stream.append("F")
+                    isf.append(True)
+                stream.append(ln)
+                isf.append(False)
+            outs = common.run_stream(exe, ["t " + tl, "e 0", "b 2000000"], stream, env=env, timeout=400)
+            rs = [trans.Result(o) for o, f in zip(outs, isf) if not f]
+            chk.tally("streams_with_lou_free")
         if exact:
             # the poison/probe groups once more with the real sizing
             rs += trans.run_cases(exe, tl, lines[-15:], exact=0, env=env, timeout=400)
